@@ -171,18 +171,20 @@ def gen_case(ctx, rng, spec=None):
                 if regime == 'taylor':
                     d['val'] = datasets[0]['N'] - 1.0 / 1024
                 elif regime == 'mixed':
-                    d['val'] = datasets[0]['N'] - 1.0 / 64
+                    d['val'] = datasets[0]['N'] - 1.0 / 1024
                 else:
                     d['val'] = rng.randint(1 * 64, 6 * 64) / 64
             vec.append(d['val'])
     others_d = [d for d in decls if d['name'] != 0 and d['name'] != 9]
     if needed and others_d and regime != 'taylor' and spec.get('sobp', rng.random() < 0.5):
+        Lb = needed[-1]          # the local name the background density depends on
+        feeders = [d for d in others_d if Lb in d['names']]
         for dsd in datasets:
-            bd = rng.choice(others_d)
+            bd = rng.choice(feeders)
             b0 = [round(rng.uniform(0.3, 2.5), 6) for _ in range(dsd['n_raw'])]
             if rng.random() < 0.6:
                 b0[dsd['keep'][rng.randrange(len(dsd['keep']))]] = 0.0      # zero background -> constant ratio, gradient 0
-            dsd['sobp'] = {'pn': needed[0], 'cs': 0.3, 'cb': -0.2, 'gname': bd['name'],
+            dsd['sobp'] = {'pn': needed[0], 'bn': Lb, 'cs': 0.3, 'cb': -0.2, 'gname': bd['name'],
                            'fixed_val': bd['val'] if bd['fixed'] else None, 'b0': b0,
                            's0': [round(rng.uniform(0.5, 2.0), 6) for _ in dsd['pairs']]}
         ctx.count('sobp_factor:' + ('bkg_fixed' if bd['fixed'] else 'bkg_floating'))
